@@ -108,16 +108,21 @@ def expected(root):
                 NOT if (nr and all(c.content for c in nr)) else (UNS if nr else MUST))
         if nm == "title" and n.parent is not None and n.parent.name == "dataset":
             t = n.content
-            if t is None or any(ch in t for ch in "\t\n\r\x0b\x0c") or t != t.strip(" \xa0") and False:
+            if t is None:
                 put(W.TITLE_TOO_SHORT, n, UNS)
             else:
-                words = [w for w in t.replace("\xa0", " ").split(" ") if w]
-                if any(w.strip() != w or not w.strip() for w in words):
-                    put(W.TITLE_TOO_SHORT, n, UNS)
+                # two defensible word counts: any whitespace separates words / only spaces (and NBSP) separate words,
+                # tokens without a visible character never count.  Where they agree the recommendation is determined.
+                by_any = len(t.split())
+                by_space = len([w for w in t.replace("\xa0", " ").split(" ") if w.strip()])
+                if by_any < 5 and by_space < 5:
+                    put(W.TITLE_TOO_SHORT, n, MUST)
+                elif by_any >= 5 and by_space >= 5:
+                    put(W.TITLE_TOO_SHORT, n, NOT)
                 else:
-                    put(W.TITLE_TOO_SHORT, n, MUST if len(words) < 5 else NOT)
-                    if len(words) in (4, 5):
-                        boundary[0] = True
+                    put(W.TITLE_TOO_SHORT, n, UNS)
+                if {by_any, by_space} & {4, 5}:
+                    boundary[0] = True
         if nm == "dataset":
             ab = kids(n, "abstract")
             if len(ab) > 1:
@@ -321,7 +326,8 @@ def constructed(draw):
                     try_remove(s, name)
             for k in s.get("k", []):
                 if k["n"] == "title":
-                    k["c"] = words(draw(st.sampled_from([3, 4, 5, 6])), draw(st.sampled_from([" ", "  ", "\xa0", " \xa0"])))
+                    k["c"] = words(draw(st.sampled_from([3, 4, 5, 6])), draw(st.sampled_from(
+                        [" ", "  ", "\xa0", " \xa0", " \n ", " \t ", "  \n   ", " \r\n ", "\n", " \x0b "])))
                 elif k["n"] == "abstract" and draw(st.integers(0, 2)) > 0:
                     k.clear()
                     k.update(draw(abstract_spec()))
